@@ -332,6 +332,32 @@ impl World {
         }
     }
 
+    /// Run `f` on read-only `AccountInfo`s of the given accounts, laid out exactly as for an instruction (used to call a
+    /// real library function — e.g. the risk engine — directly on the store's bytes). Panics inside `f` are caught.
+    pub fn with_infos<R>(&self, keys: &[Pubkey], f: impl FnOnce(&'static [AccountInfo<'static>]) -> R) -> Option<R> {
+        stubs::ensure_installed();
+        stubs::set_clock(self.clock_ts, self.slot);
+        stubs::reset_for_top_level();
+        let pre: Vec<Acct> = keys.iter().map(|k| self.accounts.get(k).cloned().unwrap_or_else(Acct::empty_system)).collect();
+        let mut slots: Vec<Slot> = keys.iter().zip(pre.iter()).map(|(k, a)| Slot::new(k, a)).collect();
+        let out = {
+            let infos: Vec<AccountInfo<'static>> = slots
+                .iter_mut()
+                .zip(pre.iter())
+                .map(|(s, a)| unsafe { s.info(a.data.len(), false, false, a.executable) })
+                .collect();
+            let infos_ref: &'static [AccountInfo<'static>] = unsafe { std::mem::transmute::<&[AccountInfo<'static>], _>(&infos[..]) };
+            let r = {
+                let _mute = stubs::StdoutMute::new();
+                std::panic::catch_unwind(std::panic::AssertUnwindSafe(|| f(infos_ref)))
+            };
+            stubs::reset_for_top_level();
+            r.ok()
+        };
+        drop(slots);
+        out
+    }
+
     /// Run one instruction against the store. On `Err` the store may be partially unchanged but is
     /// never partially written (write-back happens only on success); `exec_tx` restores the snapshot.
     fn exec_inner(
